@@ -4,6 +4,7 @@ CONSTANTS
   Nodes = {1, 2}
   PoolLocks = {1, 2}
   Iter = 2
+  ClearLate = FALSE
   EarlyRelease = TRUE
 INVARIANT MutualExclusion
 INVARIANT Safe
